@@ -113,7 +113,10 @@ def numeric_check(v, name, ignore_na=True, tag=""):
     return CheckSpec(name, ignore_na, **P)
 
 
-STR_PATTERNS = ["a|b[0-9]+", "^a[0-9]+$", "ab", "(x|yz)+c?"]
+import re as _re
+
+# the last two are COMPILED patterns (str_matches / str_contains accept them): their flags are part of the pattern
+STR_PATTERNS = ["a|b[0-9]+", "^a[0-9]+$", "ab", "(x|yz)+c?", _re.compile("^ab[0-9]$", _re.IGNORECASE), _re.compile("b[x-z]")]
 
 
 def string_check(v, name, ignore_na=True, pat=None, tag=""):
